@@ -10,6 +10,12 @@ TECH = "deterministic simulation with fault injection (seeded schedule/fault sea
 CHECKS = {
  "C03": ("repl", "exploration", "Seeded search over histories and pull schedules of 2-4 real nodes; after a fault-free heal phase all members must hold identical content, logs and query results, a further round must transfer nothing, winners must be acknowledged versions.",
          "Faults: connection cuts at any message, interleaved sessions, crash/restart, clock skew and jumps; no message loss inside a live stream (QUIC excludes it). Open known findings (multi-entity summary blindness; references added with a losing source version) are reported as KNOWN-FINDING; the single-entity / non-concurrent-reference space is checked in full."),
+ "C02": ("byz", "exploration", "An honest victim runs its real pull of a room while a man in the middle holding its own key (own-rows right on one entity from a known date, possibly disabled later) and every validly signed row it was served rewrites the honest source's answers: 16 operators over rows, references and deletion records (wrong room, no right, before enabled / after disabled, foreign row replaced, deleted or moved with the own-rows right only, tampered, oversized, model-violating, unknown entity or label, foreign / absent source row) interleaved with honest writes and pulls; afterwards nothing injected is found in any table, the attacked rows are unchanged, and after an undisturbed pull everything the victim stores is something the source stores or a row the adversary was entitled to write, and its daily log is the function of its content.",
+         "Signatures are real ed25519: the adversary cannot sign for keys it does not hold. Three open known findings, all on references (accepted on the author's own-rows right alone: source row of another room, absent, or written by somebody else)."),
+ "C06": ("byz", "exploration", "Same setting with signature operators: a validly signed reference re-cut at the boundary of its two adjacent variable-length fields, in a model built so that both cuts are reference fields, and rows / references in the honest user's name whose signature is the user's answer to an identity challenge chosen by the adversary: nothing the user did not write may be stored under its key.",
+         "Only references have adjacent variable-length fields in their digest (rows go through JSON and fixed-size values; deletion records keep strings apart). One open known finding (reference digest without lengths); the signing request was a genuine signing oracle and is repaired (fix 2781df6)."),
+ "C07": ("byz", "exploration", "Same setting with room-definition operators: the adversary claims a newer definition date and substitutes the definition the victim imports through the real add_room_node, for a room the victim knows and for a member that never saw it: older definition with entries omitted, admin-signed user entry re-attached as admin or moved to the all-rights group, right entry of another room, self-signed admin / right / user-admin entries, existing reference signed again; every entry stored before is stored unchanged after, nothing new is stored and the decision grid identities x entities x dates x {admin, member, own, all} does not move (fresh member: grants nothing the honest definition does not).",
+         "None of the crafted definitions contains an entry added by somebody entitled to, so any change is a violation; honest news are pulled first. Open known findings share two causes (placing references never authorship-checked - the shipped unit test room_node::tests::invalid asserts it; a room not seen before authorises itself). With proposed_fixes/C07-reference-authorship.diff applied the known-room part of the check is clean."),
  "C08": ("serve", "exploration", "An honest server with 2-4 rooms and a requester whose membership differs per room and changes while connected, talking to the server's real connection services; every request kind before/after the identity proof and the room list, naming rooms and rows of rooms it does and does not belong to; every answer is decoded and must only carry data of rooms the requester is a member of at the server's date.",
          "Membership is read from the server's in-memory room (is_user_valid_at). The requester answers the server's own requests with errors."),
  "C09": ("repl", "exploration", "At every recomputation barrier on every node: no mark left, counts and daily hashes recomputed by independent harness code from the stored rows, the whole log (chained hash included) equal to a from-scratch rebuild by the real compute() over the same rows, equal content <=> equal logs across nodes.",
